@@ -84,7 +84,10 @@ def gen_dsm(tier, seed):
     stats = {"cases": 0, "models": {}, "grids": {}, "prm_kinds": {}, "n_pts": {}}
     for cid in range(ncases):
         n = r.randint(3, 6 if tier == "quick" else 8)
-        gk = r.choice(["unit", "const", "uneven", "uneven"])
+        short = r.random() < 0.15
+        if short:
+            n = r.randint(7, 10)
+        gk = r.choice(["unit", "const", "uneven", "uneven"]) if not short else r.choice(["unit", "unit", "uneven"])
         items = grid(r, gk, n)
         if r.random() < 0.03:
             items = items[: r.choice([1, 2])]          # too short: must be refused
@@ -101,6 +104,19 @@ def gen_dsm(tier, seed):
         cls = r.choice(list(MODELS))
         span = max(1, items[-1] - items[0]) if n > 1 else 1
         prms = {p: prm_spec(r, p, letters, shape, span) for p in MODELS[cls]}
+        if short and n >= 4:
+            # short-lived early cohorts, longer-lived later ones: the first cohorts die out completely
+            # within the span (survival below machine precision) while later ones are still around
+            step = r.choice([Fraction(3, 2), Fraction(2), Fraction(3), Fraction(4)])
+            grow = [fnum(Fraction(5, 4) + step * k) for k in range(n)]
+            for pname in MODELS[cls]:
+                if pname in ("mean", "weibull_scale"):
+                    prms[pname] = {"kind": "array", "dims": ["t"], "vals": grow}
+                elif pname == "std":
+                    prms[pname] = {"kind": "scalar", "v": fnum(r.choice([Fraction(1, 8), Fraction(1, 4)]))}
+                elif pname == "weibull_shape":
+                    prms[pname] = {"kind": "scalar", "v": fnum(r.choice([Fraction(8), Fraction(12)]))}
+            stats["short_lived"] = stats.get("short_lived", 0) + 1
         n_pts = r.choice([1, 1, 1, 2, 3, 4, 5, 6, 7, 8, 9, 10]) if r.random() < 0.97 else r.choice([0, 11, 12])
         inflow_at = r.choice(["start", "middle", "end"]) if r.random() < 0.97 else "centre"
         ops = []
